@@ -100,21 +100,12 @@ def stats(behs):
     acts = {}
     f1 = f14 = 0
     for b in behs:
-        torn = False
         for s in b:
             k = s["a"] + ("/" + s["in"] if s.get("in") else "") + ("/" + (s.get("stage") or s.get("how")) if (s.get("stage") or s.get("how")) else "")
             acts[k] = acts.get(k, 0) + 1
-        # F1 pattern: torn crash, restart, acknowledged write, crash, restart
-        names = [(s["a"], s.get("how")) for s in b]
-        for i, (a, how) in enumerate(names):
-            if a == "crash" and how == "torn":
-                rest = [x[0] for x in names[i + 1:]]
-                if "restart" in rest:
-                    r = rest.index("restart")
-                    if "write" in rest[r:] and "restart" in rest[r + 1:]:
-                        f1 += 1
-                        break
-        if any("F14" in s["st"]["taint"] for s in b):
+        if has_f1_history(b):
+            f1 += 1
+        if has_f14_window(b):
             f14 += 1
     return acts, f1, f14
 
@@ -152,10 +143,11 @@ def need_hooks(ctx):
 
 
 def known_behaviours(ctx):
-    """The minimal replays of the recorded findings are always part of the batch (DESIGN 4.10)."""
+    """The minimal replays of the recorded (known-*) and repaired (fixed-*) findings are part of every batch (DESIGN 4.10)."""
     out = []
-    for p in sorted(glob.glob(os.path.join(os.path.dirname(os.path.dirname(os.path.abspath(__file__))), "replays", ctx.prop, "known-*.json"))):
-        out.append(json.load(open(p))["replay"]["behaviour"])
+    for p in sorted(glob.glob(os.path.join(os.path.dirname(os.path.dirname(os.path.abspath(__file__))), "replays", ctx.prop, "*.json"))):
+        if os.path.basename(p).startswith(("known-", "fixed-", "regress-")):      # recorded findings, repaired ones, regression histories
+            out.append(json.load(open(p))["replay"]["behaviour"])
     return out
 
 
@@ -189,22 +181,45 @@ def shared_bound_pairs(beh):
     return n
 
 
-def generate_shared_bound(ctx, sd, name, consts, num, keep, need):
-    """Targeted profile: keep only behaviours with >= 1 shared-bound delete pair that is followed by at least one more
-    step (every step boundary recovers a crash image, i.e. re-reads the tombstone files) - deterministic content."""
-    sel = []
-    total = 0
-    for attempt in range(4):                            # top up with further seeds until the batch has what it is for
-        behs = generate(ctx, sd, name, consts, num=num, variants=6, seed=ctx.seed + 7919 * attempt)
-        total += len(behs)
-        for b in behs:
-            if shared_bound_pairs(b) >= 1:
-                sel.append(b)
-        if len(sel) >= need:
+def has_f1_history(b):
+    """torn WAL tail -> restart -> acknowledged write (-> a later recovery: the crash image taken at the next
+    step boundary, or a restart step): the history that lost data before patches/C01/04-fix"""
+    names = [(x["a"], x.get("how")) for x in b]
+    for i, (a, how) in enumerate(names):
+        if a == "crash" and how == "torn":
+            rest = [x[0] for x in names[i + 1:]]
+            if "restart" in rest and "write" in rest[rest.index("restart"):]:
+                return True
+    return False
+
+
+def has_f14_window(b):
+    return any("F14" in x["st"]["taint"] for x in b)
+
+
+def generate_with(ctx, sd, name, consts, num, pred, need, what, keep_matching=None, variants=3, max_attempts=12, have=0):
+    """Generate a profile and top it up with further TLC seeds derived from VERIF_SEED until at least `need` behaviours
+    satisfy `pred`: what a vacuity guard requires is present for every seed, not by luck.  Returns (all, matching)."""
+    allb, match = [], []
+    for attempt in range(max_attempts):
+        behs = generate(ctx, sd, name, consts, num=num, variants=variants, seed=ctx.seed + 1000 * attempt)
+        new = behs if attempt == 0 else [b for b in behs if pred(b)]     # top-up rounds only add what is missing
+        allb += new
+        match += [b for b in new if pred(b)]
+        if len(match) >= need:
             break
-    behs = range(total)
-    sel.sort(key=lambda b: -shared_bound_pairs(b))
-    log("  %s: %d of %d behaviours contain deletes sharing exactly one bound on file data; keeping %d" % (name, len(sel), len(behs), min(keep, len(sel))))
-    if len(sel) < need:
-        raise Infra("%s: only %d behaviours with two deletes sharing one bound (need %d)" % (name, len(sel), need))
-    return sel[:keep]
+    log("  %s: %d behaviours, %d with %s (needed %d, %d generation round(s))" % (name, len(allb), len(match), what, need, attempt + 1))
+    if len(match) + have == 0:      # `have`: always-replayed behaviour files (replays/<ID>/known-|fixed-|regress-*) with it
+        raise Infra("%s: no behaviour with %s after %d rounds" % (name, what, max_attempts))
+    if keep_matching is not None:
+        match.sort(key=lambda b: -shared_bound_pairs(b))
+        return match[:keep_matching], match[:keep_matching]
+    return allb, match
+
+
+def generate_shared_bound(ctx, sd, name, consts, num, keep, need, have=0):
+    """Targeted profile: only behaviours with >= 1 pair of deletes sharing exactly one bound on file data are kept
+    (every later step boundary recovers a crash image, i.e. re-reads the tombstone files)."""
+    sel, _ = generate_with(ctx, sd, name, consts, num, lambda b: shared_bound_pairs(b) >= 1, need,
+                           "two deletes sharing exactly one bound on file data", keep_matching=keep, variants=6, have=have)
+    return sel
